@@ -146,7 +146,7 @@ def h_deflag(h, guess):
 
 
 def h_deton(h):
-    hy, th, st = make_hydro(h)
+    hy, th, st = make_hydro(h, stubs=ScipyStubs(h, nondet_converged=True))
     vw = h.real("vw", 0, 1, default=0.9)
     try:
         vp, vm, Tp, Tm = hy.matchDeton(vw)
